@@ -131,7 +131,7 @@ def evil(draw):
     return {"kind": kind, "target": target, "text": text, "spelling": spelling, "handle": spelling == "handle"}
 
 
-POSITIONS = ["extra-value", "unknown-section", "pipeline-first", "pipeline-last", "pipeline-middle", "tag-arg", "tag-arg", "tag-arg-seq",
+POSITIONS = ["tag-arg-key", "element-arg-key", "extra-value", "unknown-section", "pipeline-first", "pipeline-last", "pipeline-middle", "tag-arg", "tag-arg", "tag-arg-seq",
              "pipeline-element-arg", "type-element-arg", "complex-key", "logging", "alias", "alias-in-tag", "top-level-key"]
 
 
@@ -173,6 +173,11 @@ def build(doc):
         pipeline.insert(1, ev)
     elif pos == "tag-arg":
         extra = {"t": tag, "n": {"m": [["a", wrap(ev, depth - 1, flow)]], "flow": flow}}
+    elif pos == "tag-arg-key":
+        # the forbidden tag sits on a mapping *key* of a registered tag's keyword arguments
+        extra = {"t": tag, "n": {"mk": [[ev, {"s": 1}], [{"s": "b"}, {"s": 2}]]}}
+    elif pos == "element-arg-key":
+        pipeline[0] = {"t": "VDeco", "n": {"mk": [[{"s": "a"}, {"s": 1}], [ev, {"s": 2}]]}}
     elif pos == "tag-arg-seq":
         extra = {"t": tag, "n": {"l": [{"s": 1}, wrap(ev, depth - 1, flow)], "flow": flow}}
     elif pos == "pipeline-element-arg":
@@ -239,7 +244,7 @@ def run_case(doc) -> Result:
     ensure()
     res.cls("kind:" + doc["evil"]["kind"], "pos:" + doc["pos"], "spelling:" + doc["evil"]["spelling"],
             "canary:" + str("canary" in str(doc["evil"]["target"])))
-    res.nontrivial = doc["pos"] in ("tag-arg", "tag-arg-seq", "pipeline-element-arg", "type-element-arg", "complex-key", "alias", "alias-in-tag", "top-level-key")
+    res.nontrivial = doc["pos"] in ("tag-arg-key", "element-arg-key", "tag-arg", "tag-arg-seq", "pipeline-element-arg", "type-element-arg", "complex-key", "alias", "alias-in-tag", "top-level-key")
     return res
 
 
